@@ -32,7 +32,7 @@ Definition hard_limit (t : tc) (c : color) : Z :=
   if 0 <? mtime t then mtime t else
   let left := time_left t c in
   if left <=? TimeSafetyMargin then left
-  else clamp (wrap64 (4 * soft_limit t c)) TimeSafetyMargin (wrap64 (left - TimeSafetyMargin)).
+  else clamp (wrap64 (HardLimitFactor * soft_limit t c)) TimeSafetyMargin (wrap64 (left - TimeSafetyMargin)).
 
 (* time.Duration(h) * time.Millisecond : int64 nanoseconds *)
 Definition duration_ns (h : Z) : Z := wrap64 (h * 1000000).
